@@ -305,9 +305,9 @@ def rest_stays_at_rest_springStmt : Prop :=
 def rest_stays_at_rest_positionalStmt : Prop :=
   the same with Positional.step / Positional.init; additionally needs
   `threeDofJointUpdate (jcalc q) (sphericalize …) = 0` inside the limits (atan2 / half-angle
-  identities for the three limit axes).  On the pinned tree it is FALSE for a left-handed
-  three-hinge stack with a limited middle joint (`positional_lefthanded_limit_witness` is the
-  failing input reported by the harness, defect D7 in notes/C04.md).
+  identities for the three limit axes).  On the pinned tree it was FALSE for a left-handed
+  three-hinge stack with a limited middle joint (defect D7, found by this check's rest clause,
+  repaired in /repo by commit f5f04c1; witness in notes/C04-D7.md).
 
 def rest_stays_at_rest_generalizedStmt : Prop :=
   generalized pipeline: `qf_smooth = 0` at `qd = 0`, `g = 0` (RNE bias vanishes) ⇒ `qdd = 0`
